@@ -50,7 +50,21 @@ def run_equiv(ck, tier, K=2):
                     for f in ('val', 'flags', 'cas', 'ts', 'ttl'):
                         eq.append(z3.Implies(pa['present'][i], pa[f][i] == pb[f][i]))
                 eq.append(pa['cas_id'] == pb['cas_id'])
-                ck.obligation(f'{cmd}: same result and same contents with and without the eviction layer', p.pc, z3.And(eq), {}, None, [])
+                def on_w(m, where, cmd=cmd, j=j):
+                    from . import store_replay as SR
+                    try:
+                        sa, nsetup, C = SR.scenario(m, st, inp, cmd, j)
+                        sb, _, _ = SR.scenario(m, st, inp, cmd, j, policy='random', memory_limit=mval(m, L))
+                    except ValueError as ex:
+                        return None, f'cannot concretise: {ex}', None
+                    oa, ob = ck.replay([sa, sb])
+                    ra = [x.get('response', x.get('panic')) for x in oa['steps'][nsetup:]]
+                    rb = [x.get('response', x.get('panic')) for x in ob['steps'][nsetup:]]
+                    desc = f"{cmd} key{j} (cas {mval(m, inp.cas)}) on [{'; '.join('key%d cas=%d' % (i, mval(m, st.cas[i])) if mval(m, st.present[i]) else 'key%d absent' % i for i in range(K))}], " \
+                           f"memory limit {mval(m, L)}: responses (command, then a get of each key) without eviction layer {ra} / with it {rb}"
+                    return (True if ra != rb else None), desc, [sa, sb]
+                small = [z3.ULE(st.cas_id, 100), z3.ULE(st.now, 100000)] + [z3.ULE(PC.vlen(v), 16) for v in st.val + [inp.val]]
+                ck.obligation(f'{cmd}: same result and same contents with and without the eviction layer', p.pc, z3.And(eq), {}, on_w, small)
                 ck.cover('equiv:' + cmd, True)
             ck.sample({'cmd': cmd, 'paths': len(res)})
 
